@@ -190,6 +190,13 @@ class J1939_22:
     def __put_rts_cts_session(self, session):
         self.__rts_cts_session_list[session] = True
 
+    def __put_session(self, buf):
+        # return the session number of one of our own transfers to the pool it was taken from
+        if buf['dest_address'] == ParameterGroupNumber.Address.GLOBAL:
+            self.__put_bam_session(buf['session'])
+        else:
+            self.__put_rts_cts_session(buf['session'])
+
     def send_pgn(self, data_page, pdu_format, pdu_specific, priority, src_address, data, time_limit, frame_format, tos=2, trailer_format=0):
         pgn = ParameterGroupNumber(data_page, pdu_format, pdu_specific)
         data_length = len(data)
@@ -415,7 +422,7 @@ class J1939_22:
                         logger.info('Deadline WAITING_CTS reached for snd_buffer src 0x%02X dst 0x%02X', buf['src_address'], buf['dest_address'] )
                         self.__send_tp_abort(buf['src_address'], buf['dest_address'], buf['session'], self.ConnectionAbortReason.TIMEOUT, buf['pgn'])
                         del self._snd_buffer[bufid]
-                        self.__put_rts_cts_session(buf['session'])
+                        self.__put_session(buf)
                         # TODO: should we notify our CAs about the cancelled transfer?
 
                     elif buf['state'] == self.SendBufferState.SENDING_RTS_CTS:
@@ -467,12 +474,12 @@ class J1939_22:
                     elif buf['state'] == self.SendBufferState.WAITING_EOM_ACK:
                         # TODO: should we inform the application about the eom ack timeout?
                         del self._snd_buffer[bufid]
-                        self.__put_rts_cts_session(buf['session'])
+                        self.__put_session(buf)
 
                     elif buf['state'] == self.SendBufferState.EOM_ACK_RECEIVED:
                         # TODO: should we inform the application about the successful transmission?
                         del self._snd_buffer[bufid]
-                        self.__put_rts_cts_session(buf['session'])
+                        self.__put_session(buf)
 
                     elif buf['state'] == self.SendBufferState.SENDING_BAM:
                         # send next broadcast message...
@@ -498,14 +505,15 @@ class J1939_22:
                                                   buf['session'],
                                                   buf['message_size'], buf['num_segments'], buf['pgn'])
                         del self._snd_buffer[bufid]
-                        self.__put_bam_session(buf['session'])
+                        self.__put_session(buf)
                     elif buf['state'] == self.SendBufferState.TRANSMISSION_FINISHED:
                         # connection aborted by the responder while we were waiting for its CTS
                         del self._snd_buffer[bufid]
-                        self.__put_rts_cts_session(buf['session'])
+                        self.__put_session(buf)
                     else:
                         logger.critical('unknown SendBufferState %d', buf['state'])
                         del self._snd_buffer[bufid]
+                        self.__put_session(buf)
 
         return next_wakeup
 
